@@ -246,6 +246,20 @@ func (wk *worker) exec(st Step) string {
 		return "tend"
 	case "tend":
 		return "skip"
+	case "tpanic":
+		// f panics inside a temporary release and the panic is recovered further up: the
+		// goroutine carries on as a holder, so it must have its token back
+		if wk.h == nil || wk.hDepth != 0 {
+			return "skip"
+		}
+		h := wk.h
+		w.uncount(h, false, false)
+		func() {
+			defer func() { recover() }()
+			cl.TemporarilyRelease(wk.hctx, func() { panic("f failed") })
+		}()
+		w.count(h, "TemporarilyRelease that panicked")
+		return "tpanic"
 	case "tempNoHolder":
 		ran := false
 		cl.TemporarilyRelease(wk.base, func() { ran = true })
@@ -470,7 +484,7 @@ func runCase(c Case) (nontrivial bool, trace []string, err error) {
 	return nt, trace, nil
 }
 
-var ops = []string{"acq", "acq", "acq", "rel", "rel", "relAgain", "tbegin", "tbegin", "tend", "tend", "relOther", "relOther", "tempNoHolder", "acqCancelled", "acqNoLimiter", "cancelHolder", "cancelHolder"}
+var ops = []string{"acq", "acq", "acq", "rel", "rel", "relAgain", "tbegin", "tbegin", "tend", "tend", "relOther", "relOther", "tempNoHolder", "acqCancelled", "acqNoLimiter", "cancelHolder", "cancelHolder", "tpanic"}
 
 func genCase(t *rapid.T) Case {
 	c := Case{N: rapid.IntRange(1, 4).Draw(t, "n"), G: rapid.IntRange(2, 7).Draw(t, "g")}
